@@ -52,6 +52,9 @@ inductive PC where
   | idleReg               -- in workerIdleMap; about to `L.Lock()`
   | hasL                  -- holds L; about to read `queue.Size()`
   | readQ (pending : Bool)-- holds L; read the queue size; about to read workerKill
+  | readK (zero : Bool)   -- holds L; read workerKill FIRST (the two re-reads are separate sections of queueLock /
+                          -- workerMapLock under L: either order; the decision uses the value read here); about
+                          -- to read the queue size
   | willWait              -- holds L; predicate said "nothing to do"; about to `Wait()`
   | waiting               -- inside `Wait()`, L released, among the waiters
   | woken                 -- notified; has to re-acquire L
@@ -64,13 +67,14 @@ inductive PC where
 
 /-- program points without payload -/
 inductive Cls where
-  | head | chkT | chkF | run | noTask | idleReg | hasL | readQT | readQF | willWait | waiting
+  | head | chkT | chkF | run | noTask | idleReg | hasL | readQT | readQF | readKT | willWait | waiting
   | woken | unlocking | unreg | drained | exiting | gone
   deriving DecidableEq, Repr
 
 def PC.cls : PC → Cls
   | .head => .head | .chk true => .chkT | .chk false => .chkF | .run _ => .run | .noTask => .noTask
   | .idleReg => .idleReg | .hasL => .hasL | .readQ true => .readQT | .readQ false => .readQF
+  | .readK true => .readKT | .readK false => .readQT   -- read workerKill ≠ 0: will not wait, like `readQ true`
   | .willWait => .willWait | .waiting => .waiting | .woken => .woken
   | .unlocking => .unlocking | .unreg => .unreg | .drained => .drained | .exiting => .exiting | .gone => .gone
 
@@ -140,13 +144,13 @@ def cntOf (pcs : List PC) (c : Cls) : Nat := pcs.countP (fun p => p.cls = c)
 
 /-- workers between L.Lock() and L.Unlock()/Wait() -/
 def holders (f : Cls → Nat) : Nat :=
-  f .hasL + f .readQT + f .readQF + f .willWait + f .unlocking
+  f .hasL + f .readQT + f .readQF + f .readKT + f .willWait + f .unlocking
 
 /-- workers that have not been told to exit (not `exiting`, not `gone`):
     `len(workerMap) - workerExiting` -/
 def clive (f : Cls → Nat) : Nat :=
   f .head + f .chkT + f .chkF + f .run + f .noTask + f .idleReg + f .hasL + f .readQT + f .readQF + f .willWait
-    + f .waiting + f .woken + f .unlocking + f .unreg + f .drained
+    + f .waiting + f .woken + f .unlocking + f .unreg + f .drained + f .readKT
 
 def State.live (s : State) : Nat := clive (cntOf s.pcs)
 
@@ -199,10 +203,12 @@ def step (v : Variant) (s : State) : Event → Option State
   | .readQ i =>
     match s.pcs[i]? with
     | some hasL => some (s.goto i (readQ (!s.queue.isEmpty)))
+    | some (readK z) => some (s.goto i (if s.queue.isEmpty && z then willWait else unlocking))
     | _ => none
   | .readKill i =>
     match s.pcs[i]? with
     | some (readQ p) => some (s.goto i (if !p && s.kill == 0 then willWait else unlocking))
+    | some hasL => some (s.goto i (readK (s.kill == 0)))
     | _ => none
   | .wWait i =>
     match s.pcs[i]? with
@@ -270,7 +276,7 @@ def State.running (s : State) : List Task := s.pcs.filterMap PC.task?
 def State.workerCount (s : State) : Nat := s.pcs.length - cntOf s.pcs .gone
 
 def idleRegistered (f : Cls → Nat) : Nat :=
-  f .idleReg + f .hasL + f .readQT + f .readQF + f .willWait + f .waiting + f .woken + f .unlocking + f .unreg
+  f .idleReg + f .hasL + f .readQT + f .readQF + f .readKT + f .willWait + f .waiting + f .woken + f .unlocking + f .unreg
 
 /-- `len(workerIdleMap)` -/
 def State.idleCount (s : State) : Nat := idleRegistered (cntOf s.pcs)
@@ -331,7 +337,7 @@ def CState.mv (s : CState) (a b : Cls) : Option CState :=
     abstraction forgets -/
 inductive CEvent where
   | killExit | killPass | pop (ok : Bool) | popNone (ok : Bool) | finish | regIdle | wLock | readQ
-  | readKill (p : Bool) | wWait | wRelock | wRecheck | wUnlock | unregIdle | exit | drainExit
+  | readKill (p : Bool) | readKillFirst | readQSecond | wWait | wRelock | wRecheck | wUnlock | unregIdle | exit | drainExit
   | aPush | aLock | aSignal (some : Bool) | swcUp (n : Nat) | swcDown (k : Nat) | swcSet (c : Nat) | swcLock | swcBcast
   | joinKill | bcast
   deriving DecidableEq, Repr
@@ -351,6 +357,8 @@ def cstep (s : CState) : CEvent → Option CState
   | .readQ => s.mv .hasL (if 0 < s.queue then .readQT else .readQF)
   | .readKill p =>
     s.mv (if p then .readQT else .readQF) (if !p && s.kill == 0 then .willWait else .unlocking)
+  | .readKillFirst => s.mv .hasL (if s.kill == 0 then .readKT else .readQT)
+  | .readQSecond => s.mv .readKT (if s.queue = 0 then .willWait else .unlocking)
   | .wWait => s.mv .willWait .waiting
   | .wRelock => if clockFree s then s.mv .woken .unlocking else none
   | .wRecheck => if clockFree s then s.mv .woken .hasL else none
@@ -380,8 +388,9 @@ def absEvent (s : State) : Event → CEvent
   | .killExit _ => .killExit | .killPass _ => .killPass
   | .pop i _ => .pop (match s.pcs[i]? with | some (.chk ok) => ok | _ => true)
   | .popNone i => .popNone (match s.pcs[i]? with | some (.chk ok) => ok | _ => true)
-  | .finish _ => .finish | .regIdle _ => .regIdle | .wLock _ => .wLock | .readQ _ => .readQ
-  | .readKill i => .readKill (match s.pcs[i]? with | some (.readQ p) => p | _ => true)
+  | .finish _ => .finish | .regIdle _ => .regIdle | .wLock _ => .wLock
+  | .readQ i => (match s.pcs[i]? with | some (.readK true) => .readQSecond | some (.readK false) => .readKill true | _ => .readQ)
+  | .readKill i => (match s.pcs[i]? with | some (.readQ p) => .readKill p | some .hasL => .readKillFirst | _ => .readKill true)
   | .wWait _ => .wWait | .wRelock _ => .wRelock | .wRecheck _ => .wRecheck | .wUnlock _ => .wUnlock
   | .unregIdle _ => .unregIdle | .exit _ => .exit | .drainExit _ => .drainExit
   | .aPush _ => .aPush | .aLock => .aLock | .aSignal w => .aSignal w.isSome
